@@ -233,7 +233,10 @@ fn run_value(
                             judge(acc, &case, "serde>serde", None, rv, &b, |_| zvx::dec_serde(ty, &e.as_ref().unwrap().data, &fdmap), plan.verbose);
                         }
                         if want("serde>dyn") && zvx::dyn_decodable(ty) {
-                            judge(acc, &case, "serde>dyn", None, rv, &b, |_| zvx::dec_dyn(ty, &e.as_ref().unwrap().data, &fdmap), plan.verbose);
+                            // The decode target is zvariant's Array/Structure/Value, whose Dict holds
+                            // one entry for keys it considers equal (0.0 / -0.0): the expected value
+                            // is that type's own view of the data (`norm`), not the generic map's.
+                            judge(acc, &case, "serde>dyn", None, &norm, &b, |_| zvx::dec_dyn(ty, &e.as_ref().unwrap().data, &fdmap), plan.verbose);
                         }
                     }
                     if want("variant>variant") {
